@@ -264,6 +264,7 @@ impl Prop for C16 {
 			big_blobs: false,
 			min_width_one: false,
 			push_ops: true,
+			scale: 1,
 		};
 		let mut spec = container::gen_filespec(rng, &profile);
 		spec.end = End::IntoInner;
@@ -289,6 +290,7 @@ impl Prop for C16 {
 	fn exec(&self, scn: &Scn) -> Outcome {
 		let mut out = Outcome::default();
 		let spec = &scn.spec;
+		container::count_scale(spec, &mut out);
 		let base_cfg = SinkCfg {
 			plan: AcceptPlan::All,
 			vectored: true,
